@@ -69,26 +69,34 @@ def scen_roots(ch, params, out):
 def parts(tier):
     if tier == "quick":
         return [
-            CH("k1k2", "vflib.props.c03:scen_load", {"pool": "KEY_POOL_QUICK", "styled": "k1k2"}, shards=16, timeout=170, path_timeout=30),
+            CH("k1k2", "vflib.props.c03:scen_load", {"pool": "KEY_POOL_QUICK", "styled": "k1k2",
+                                                     "templates": ["flat_scalars", "nested_object", "list_of_objects", "two_similar_children"]},
+               shards=16, timeout=170, path_timeout=30),
+            CH("structure_templates", "vflib.props.c03:scen_load", {"pool": "KEY_POOL_QUICK", "styled": "k3", "options": True,
+                                                                    "templates": ["odd_string_values", "deep_sole_import", "odd_values_nested", "recursive", "deep_chain"]},
+               shards=16, timeout=170, path_timeout=30),
             CH("k3", "vflib.props.c03:scen_load", {"pool": "KEY_POOL_QUICK", "styled": "k3", "options": True,
                                                    "templates": ["nested_object", "list_of_objects", "optional_pseudo"]},
                shards=16, timeout=170, path_timeout=30),
             CH("roots", "vflib.props.c03:scen_roots", {}, shards=10, timeout=170, path_timeout=30),
             CH("reserved_name_variants", "vflib.props.c03:scen_load", {"pool": "KEY_POOL_RESERVED", "styled": "k1",
-                                                                      "templates": ["flat_scalars", "nested_object", "list_of_objects"]},
+                                                                      "templates": ["flat_scalars", "nested_object"]},
                shards=16, timeout=170, path_timeout=30),
+            CH("odd_characters", "vflib.props.c03:scen_load", {"pool": "KEY_POOL_ODD", "styled": "k3", "options": True,
+                                                               "templates": ["nested_object", "list_of_objects", "odd_values_nested"]},
+               shards=8, timeout=170, path_timeout=30),
         ]
     from vflib import progsym
     return [
-        CH("k1k2", "vflib.props.c03:scen_load", {"pool": "KEY_POOL_FULL", "styled": "k1k2", "templates": progsym.TEMPLATES_FULL}, shards=16, timeout=900, path_timeout=30),
+        CH("k1k2", "vflib.props.c03:scen_load", {"pool": "KEY_POOL_FULL", "styled": "k1k2", "templates": progsym.TEMPLATES_FULL}, shards=16, timeout=400, path_timeout=30),
         CH("k3", "vflib.props.c03:scen_load", {"pool": "KEY_POOL_FULL", "styled": "k3", "options": True, "templates": progsym.TEMPLATES_FULL},
-           shards=16, timeout=700, path_timeout=30),
+           shards=16, timeout=400, path_timeout=30),
         CH("k1k2k3", "vflib.props.c03:scen_load", {"pool": "KEY_POOL_QUICK", "styled": "all", "templates": ["nested_object", "list_of_objects"],
-                                                   "frameworks": ["pydantic", "dataclasses"]}, shards=16, timeout=900, path_timeout=30),
-        CH("roots", "vflib.props.c03:scen_roots", {}, shards=10, timeout=600, path_timeout=30),
+                                                   "frameworks": ["pydantic", "dataclasses"]}, shards=16, timeout=400, path_timeout=30),
+        CH("roots", "vflib.props.c03:scen_roots", {}, shards=10, timeout=400, path_timeout=30),
         CH("reserved_name_variants", "vflib.props.c03:scen_load", {"pool": "KEY_POOL_RESERVED", "styled": "k1", "options": True,
                                                                   "templates": ["flat_scalars", "nested_object", "list_of_objects", "recursive"]},
-           shards=16, timeout=700, path_timeout=30),
+           shards=16, timeout=400, path_timeout=30),
     ]
 
 
